@@ -612,10 +612,13 @@ __find_zrng(const struct zif_s z[static 1U], int32_t t, int min, int max)
 		/* assume the first offset has always been there */
 		res.next = res.prev;
 	} else if (UNLIKELY(trno < 0)) {
-		/* special case where no transitions are recorded */
+		/* special case where no transitions are recorded,
+		 * or T is before the first one, which then bounds
+		 * the range (and assume again the first offset has
+		 * always been there) */
 		res.trno = 0U;
 		res.prev = INT_MIN;
-		res.next = INT_MAX;
+		res.next = zif_ntrans(z) ? zif_trans(z, 0) : INT_MAX;
 	} else {
 		res.trno = (uint8_t)trno;
 		if (LIKELY(trno + 1U < zif_ntrans(z))) {
